@@ -2036,6 +2036,23 @@ def _std(self, fn, st, b, t, cn, last, args, dargs, targ, summ, chain, tctrl):
             safe = r is not None and a["hi"] <= (r[1] + 1) // 2
             self._record(summ, fn, b, "T", "Overflow(next_power_of_two)", self.local_desc(fn, t["args"][0]), safe, a["t"], chain)
             return mk(npot(a["lo"]), npot(min(a["hi"], (r[1] + 1) // 2 if r else a["hi"])), a["t"], True)
+        if last in ("trailing_zeros", "leading_zeros") and ints(0) and dargs[0]["lo"] >= 0:
+            # exact on a bit-length class: leading_zeros is antitone in the value; trailing_zeros of a power of two is its logarithm
+            m = re.search(r"impl (u\d+|usize)", cn)
+            w = U.get(m.group(1)) if m else None
+            if w is None:
+                al = op_local(t["args"][0], pure=True)
+                w = U.get(fn.local_ty(al)) if al is not None else None
+            a = dargs[0]
+            if w is not None and a["hi"] < (1 << w):
+                if last == "leading_zeros":
+                    return mk(w - a["hi"].bit_length(), w - a["lo"].bit_length(), targ)
+                if a["lo"] >= 1 and a["p2"]:
+                    return mk(ilog2(npot(a["lo"])), ilog2(a["hi"]), targ)
+                if a["lo"] >= 1:
+                    return mk(0, ilog2(a["hi"]), targ)
+                return mk(0, w, targ)
+            return mk(0, 128, targ)
         if last in ("trailing_zeros", "leading_zeros", "count_ones"):
             return mk(0, 128, targ)
         if last in ("saturating_sub",) and ints(0, 1):
